@@ -87,11 +87,13 @@ def obj_to_json(obj):
     if isinstance(obj, Box):
         return {'t': 'Box', 'content': obj_to_json(obj.content)}
     if isinstance(obj, Door):
-        return {'t': 'Door', 's': obj.state.name, 'c': obj.color.name}
+        return {'t': t, 's': obj.state.name, 'c': obj.color.name}
     if isinstance(obj, (Exit, Key, Telepod, Beacon)):
         return {'t': t, 'c': obj.color.name}
     if t == 'Curtain':
         return {'t': t, 'opaque': bool(obj.opaque)}
+    if t == 'Countdown':
+        return {'t': t, 'k': int(obj.k)}
     return {'t': t}
 
 
@@ -101,6 +103,12 @@ def obj_from_json(d):
         return Box(obj_from_json(d['content']))
     if t == 'Door':
         return Door(Door.Status[d['s']], Color[d['c']])
+    if t == 'Gate':
+        return grid_object_registry.from_name(t)(Door.Status[d['s']], Color[d['c']])
+    if t == 'GoalExit':
+        return grid_object_registry.from_name(t)(Color[d.get('c', 'NONE')])
+    if t == 'Countdown':
+        return grid_object_registry.from_name(t)(d.get('k', 0))
     if t == 'Exit':
         return Exit(Color[d.get('c', 'NONE')])
     if t == 'Key':
